@@ -812,9 +812,13 @@ fn resolve_names_item_decl(ctx: &mut StaticsContext, symbol_table: &SymbolTable,
                         }
 
                         for (_, method_index) in method_set {
+                            // the type may itself be unresolved (already reported)
+                            let Some(ty) = iface_impl.typ.to_solved_type(ctx) else {
+                                break;
+                            };
                             ctx.errors.push(Error::InterfaceImplMissingMethod {
                                 iface: iface_def.clone(),
-                                ty: iface_impl.typ.to_solved_type(ctx).unwrap(),
+                                ty,
                                 iface_impl_node: iface_impl.typ.node(),
                                 missing_method_index: method_index,
                             });
